@@ -257,6 +257,22 @@ func (fr *Frame) lookupSSAName(name string) (Value, types.Type, bool) {
 	if best != nil {
 		return fr.env[best], best.Type(), true
 	}
+	// source-level variable names through debug references (value of the variable at its last reference executed)
+	var dbg ssa.Value
+	for _, b := range fr.fn.Blocks {
+		for _, ins := range b.Instrs {
+			if d, ok := ins.(*ssa.DebugRef); ok && !d.IsAddr && d.Object() != nil && d.Object().Name() == want {
+				if _, have := fr.env[d.X]; have {
+					if _, isConst := d.X.(*ssa.Const); !isConst {
+						dbg = d.X
+					}
+				}
+			}
+		}
+	}
+	if dbg != nil {
+		return fr.env[dbg], dbg.Type(), true
+	}
 	// named local allocs (captured variables)
 	for v := range fr.env {
 		if a, ok := v.(*ssa.Alloc); ok && a.Comment == want {
